@@ -55,7 +55,7 @@ def sampler_configs(draw, classes=CLASSES, max_d=4, target_kinds=("gauss", "gaus
            "T": 1.0, "bounds": None, "display_progress": draw(st.sampled_from(list(progress))),
            "caller_reuses_arrays": draw(st.sampled_from([False, False, True]))}
     if temperature == "maybe" and cls != "ensemble" and draw(st.booleans()):
-        cfg["T"] = draw(st.sampled_from([0.3, 0.5, 2.0, 3.0, 10.0, 50.0, draw(st.floats(0.3, 50))]))
+        cfg["T"] = draw(st.sampled_from([0.3, 0.5, 2.0, 3.0, 10.0, 50.0, 1.9, 6.3, draw(st.floats(0.3, 50))]))
     want_bounds = (bounds == "always") or (bounds == "maybe" and draw(st.booleans()))
     if want_bounds and cls in ("pca", "hmc", "ensemble"):
         half = [10 ** draw(st.floats(-0.7, 1.0)) for _ in range(d)]
